@@ -155,6 +155,20 @@ pub fn run_line(line: &str) -> String {
                 Ok(_) => "ok".into(),
                 Err(e) => classify_err(&e.to_string()),
             },
+            "M" => {
+                // M <n> <sql>: the statement n times in autocommit; "ok" when every run succeeded
+                let (n, sql) = rest.split_once(' ').unwrap();
+                let n: usize = n.parse().unwrap();
+                let mut res = String::from("ok");
+                for _ in 0..n {
+                    if let Err(e) = db.as_ref().unwrap().execute(sql) {
+                        if verbose { eprintln!("ERR {}: {}", sql, e); }
+                        res = classify_err(&e.to_string());
+                        break;
+                    }
+                }
+                res
+            }
             "S" => match std::fs::metadata(&path) {
                 Ok(m) => format!("size:{}", m.len()),
                 Err(_) => "err:other".into(),
